@@ -202,6 +202,9 @@ class CalendarRule(PluginResultIterator):
                     tzinfo=self.start_date.tzinfo,
                 )
 
+        elif isinstance(until, datetime):
+            until = parse_datetimespec(until)
+
         elif isinstance(until, date):
             until = datetime.combine(
                 until, self.start_date.time(), tzinfo=self.start_date.tzinfo
